@@ -80,6 +80,11 @@ func genC17(g *prng.R) c17Case {
 		var vals A
 		for i := 0; i < n; i++ {
 			ref := addrPool[g.Intn(len(addrPool))]
+			if g.Chance(1, 12) {
+				// an anonymous addressee (no id): names nobody, owns nothing
+				vals = append(vals, M{"type": "Group", "name": "anonymous addressee"})
+				continue
+			}
 			if g.Chance(1, 5) && !isPublic(ref) {
 				vals = append(vals, M{"type": "Collection", "id": ref})
 			} else {
